@@ -172,6 +172,8 @@ MUTANTS = {
          "                        if future.result().exception is not None and len(futures) > n - 1:\n                            continue\n                        yield future.result()\n", "caught"),
         ("args-dropped", "tatsu/parproc/task.py", "outcome = task.func(task.payload, *task.args, **task.kwargs)", "outcome = task.func(task.payload, **task.kwargs)", "caught"),
         ("sequential-skips-failures", "tatsu/parproc/parproc.py", "yield from map(taskproc, tasks)", "yield from (r for r in map(taskproc, tasks) if r.exception is None)", "caught"),
+        ("processing-loop-dedupes-file-names", "tatsu/parproc/legacy.py", "paths = [Path(f) for f in filenames]", "paths = sorted({Path(f) for f in filenames})[:-1]", "caught"),
+        ("processing-loop-text-of-first-file", "tatsu/parproc/legacy.py", "payloads = [VisualPayload(p, p.read_text()) for p in paths]", "payloads = [VisualPayload(p, paths[0].read_text()) for p in paths]", "caught"),
         # negative controls: behaviour-preserving edits — the check must stay quiet
         ("NC-refill-guard-and-futures", "tatsu/parproc/pmap.py", "if not stop.is_set():\n                            for task", "if not stop.is_set() and (futures or True):\n                            for task", "quiet"),
         ("NC-window-doubled", "tatsu/parproc/pmap.py", "n = 1 + (max_workers or 8)", "n = 2 * (1 + (max_workers or 8))", "quiet"),
